@@ -105,7 +105,7 @@ CLAIMED = {
                 "precondition reaches the ladder through a refusing guard (all-pairs coprimality refusal in RNSBase::new; "
                 "refusal propagation validate <- create_ntt_tables <- NTTTables::new <- try_minimal_primitive_root <- "
                 "try_primitive_root with the up-front 2N | q-1 refusal); identifier reproducibility (compute_parms_id reads "
-                "every hashed field, writers of hashed fields recompute on every path, nothing nondeterministic reachable). Also: the words of the parms_id hash input are stored at pairwise distinct positions for every chain length.",
+                "every hashed field, writers of hashed fields recompute on every path, nothing nondeterministic reachable). Also: the words of the parms_id hash input are stored at pairwise distinct positions for every chain length. Chain construction (R-CHAIN): partially evaluating HeContext::new under each value of the parameters' boolean flag getters never folds the branch around the expansion loop to never-taken; create_next_context_data builds the one-shorter prefix (single pop of the copied moduli), refuses before linking, links both ways from the map entry of the previous id and registers the level under its own id; the expansion loop advances cursor and last id after the zero test; chain indices count down by one per level to 0.",
         "note": _TB + "Not decided: that accepted parameters satisfy the mathematics as values, collision freedom of the "
                 "hash, primality of generated moduli, panic freedom of the whole constructor tree, equality of "
                 "precomputed constants with their definitions.",
@@ -195,7 +195,7 @@ CLAIMED = {
                 "object to a callee that, on every normally-returning path, moves it to next_context_data (so the "
                 "finite chain is walked strictly downward or the call refuses). Refusals: no normally-returning path of "
                 "the to-target forms lacks the upward test, none of the to-next/rescale forms lacks the last-level "
-                "test, and on the BFV and BGV projections the rescale entry points never return normally. Also: in the kernels that drop the last prime no residue of the dropped prime enters another prime's arithmetic unreduced, and per-prime operands are taken at the slot's own index.",
+                "test, and on the BFV and BGV projections the rescale entry points never return normally. Also: in the kernels that drop the last prime no residue of the dropped prime enters another prime's arithmetic unreduced, and per-prime operands are taken at the slot's own index. A level walk written as a counted loop must measure its hop count from the walked object's own level (chain_index of the context data of its parms_id), not from the first/key/last level.",
         "note": _TB + "Not decided: preservation of the decrypted message, rounding bounds, BGV correction-factor "
                 "arithmetic. Interior mutability / external state in a loop condition yields `unresolved`, never an alarm.",
         "technique": "loop-variant analysis on typed HIR (read/write sets, Freeze types) + interprocedural must-pass-through + symbolic slot/prime discipline",
@@ -230,7 +230,9 @@ CLAIMED = {
                 "the three lock-protected caches (discovered from the type facts): no lock is re-acquired while one of "
                 "its guards is live, in the same body or through any callee (exact MIR guard live ranges); every "
                 "whole-value publish through a write guard in a &self function is dominated by a re-check under that "
-                "guard; no shrinking call through a guard; the shareable types have no interior-mutable field other "
+                "guard; data computed from a read-guard snapshot is appended through a write guard only at an offset "
+                "taken from the current value or after an exiting check against the snapshot (no check-then-act "
+                "append); no shrinking call through a guard; the shareable types have no interior-mutable field other "
                 "than these locks; all shareable types are Send+Sync (compile-pass witnesses; compile_fail witnesses "
                 "with twins in the thorough tier).",
         "note": _TB + "rustc's Send/Sync and borrow checking for the witnesses. Not decided: linearizability as a "
@@ -254,7 +256,7 @@ CLAIMED = {
         "text": "Decides for the matmul/conv2d helper structs: no buffer handed to an encoder has the global "
                 "counterpart of a block dimension as a length factor (it would exceed the slot count for every shape "
                 "the helper splits); the _bfv/_ckks twins of every helper method have identical integer skeletons; "
-                "output re-encoding stores each tensor cell exactly where output decoding loads it from. Also: channel-slot conservation of the packed 2-D convolution (slot(weights) + slot(inputs) == slot read by the decoder) as a polynomial identity.",
+                "output re-encoding stores each tensor cell exactly where output decoding loads it from. Also: channel-slot conservation of the packed 2-D convolution (slot(weights) + slot(inputs) == slot read by the decoder) as a polynomial identity; and (R-DECODELEN) a vector returned by BatchEncoder::decode_polynomial(_new) — as short as the plaintext decryption trimmed — is resized before any read at a computed index (premise re-read from Decryptor and BatchEncoder on every run).",
         "note": _TB + "Not decided: equality with the plaintext product/correlation, block-search optimality, the BOLT "
                 "helpers' modular slot arithmetic beyond twin agreement.",
         "technique": "symbolic length factors + canonicalised index-expression agreement between sibling methods + cross-function polynomial identity",
